@@ -436,10 +436,10 @@ func runCase(c driver.Case) driver.Result {
 
 func main() {
 	driver.Main(driver.Property{
-		ID:    "C15",
-		Level: "exploration",
-		Rule:  "a scripted cold source whose n-th subscription plays the n-th outcome (each outcome a script of ≤2 values ending in completion or error) — EVERY outcome sequence up to the bound × Retry/RetryWithConfig (MaxRetries 0..3 × ResetOnSuccess × Delay 0/2ms), RepeatWith 0..3, DoWhileI/WhileI (truth sequences F, TF, TTF, TTTF), Catch, OnErrorResumeNextWith, Concat × synchronous and asynchronous attempts, plus cancellation of the subscription context at the moment attempt k is subscribed. Oracle: inside the source's subscribe function no other attempt is live; number of attempts, forwarded values and terminal equal the executable definition; no attempt starts after the context was cancelled and the terminal is the context's error; every attempt is released at the end. Non-trivial: at least one attempt was started (or the definition prescribes none).",
-		Assume: []string{"definitions follow the operators' doc comments and examples; unlimited Retry is only driven with a finally succeeding outcome"},
+		ID:        "C15",
+		Level:     "exploration",
+		Rule:      "a scripted cold source whose n-th subscription plays the n-th outcome (each outcome a script of ≤2 values ending in completion or error) — EVERY outcome sequence up to the bound × Retry/RetryWithConfig (MaxRetries 0..3 × ResetOnSuccess × Delay 0/2ms), RepeatWith 0..3, DoWhileI/WhileI (truth sequences F, TF, TTF, TTTF), Catch, OnErrorResumeNextWith, Concat × synchronous and asynchronous attempts, plus cancellation of the subscription context at the moment attempt k is subscribed. Oracle: inside the source's subscribe function no other attempt is live; number of attempts, forwarded values and terminal equal the executable definition; no attempt starts after the context was cancelled and the terminal is the context's error; every attempt is released at the end. Non-trivial: at least one attempt was started (or the definition prescribes none). Asynchronous cases of 2-3 attempts are repeated with the goroutine that ends attempt k parked at the hook point subscriber.terminal.unlocked (terminal callbacks done, attempt not yet released): the next attempt must not be subscribed meanwhile.",
+		Assume:    []string{"definitions follow the operators' doc comments and examples; unlimited Retry is only driven with a finally succeeding outcome"},
 		Plan:      plan,
 		Run:       runCase,
 		CaseWatch: 90 * time.Second,
